@@ -415,6 +415,11 @@ func RuleD10(c *Ctx) {
 					sets = append(sets, call)
 					continue
 				}
+				// SetBytesLE may hand the (reordered) input to the big-endian sibling, which has this obligation itself
+				if call, isCall := ci.(*ssa.Call); isCall && name == "SetBytesLE" && core.IsMethod(callee, "bandersnatch/fr", "Element", "SetBytes") && cc.Args[0] == ssa.Value(z) {
+					sets = append(sets, call)
+					continue
+				}
 				if callee != nil && gnarkObservers[callee.Name()] {
 					continue
 				}
@@ -449,6 +454,13 @@ func RuleD10(c *Ctx) {
 			// the integer: big.Int.SetBytes(x) on the same *big.Int before, x the (possibly reordered) complete input
 			v := s.Call.Args[1]
 			fed := false
+			if core.IsMethod(core.Callee(s.Common()), "bandersnatch/fr", "Element", "SetBytes") {
+				fed = v == ssa.Value(e) || wholeOfValue(v, e) || core.FlowsTo(e, v, func(call *ssa.Call, argIdx int) bool { return true })
+				if !fed {
+					why = append(why, "the bytes handed to z.SetBytes at "+c.P.Pos(s.Pos())+" do not come from the input")
+				}
+				continue
+			}
 			for _, bs := range callsTo(fn, "math/big", "Int", "SetBytes") {
 				if bs.Call.Args[0] != v || !core.Precedes(fn, bs, s) {
 					continue
@@ -677,4 +689,131 @@ func RuleZ2(c *Ctx) {
 		}
 	}
 	c.FloorN("Z2", 10, n, "group-element locals")
+}
+
+// RuleD12 — the validating entry point is nothing but the validated decode.
+func RuleD12(c *Ctx) {
+	c.Rule("D12", "untrusted entry point: banderwagon.(*Element).SetBytes sets its receiver only through p.setBytes(buf, false) on its own receiver and buffer, and every non-error return either forwards that call's error value or lies behind its nil-error edge (no shortcut — a cache, a fast path, a second decoder — lets bytes become an element without the curve and subgroup tests of rule D2)")
+	fn := c.P.Fn("banderwagon", "Element", "SetBytes")
+	if fn == nil {
+		c.Unresolved("D12", "banderwagon.(*Element).SetBytes")
+		return
+	}
+	c.Saw(core.FnName(fn))
+	target := c.P.Fn("banderwagon", "Element", "setBytes")
+	var valid []*ssa.Call
+	for _, ci := range core.CallsIn(fn) {
+		call, ok := ci.(*ssa.Call)
+		if !ok || target == nil || core.Callee(call.Common()) != target || len(call.Call.Args) != 3 {
+			continue
+		}
+		trusted, isK := core.ConstBool(call.Call.Args[2])
+		buf := call.Call.Args[1]
+		if sl, isSl := buf.(*ssa.Slice); isSl && wholeSlice(sl) {
+			buf = sl.X
+		}
+		if isK && !trusted && call.Call.Args[0] == ssa.Value(fn.Params[0]) && buf == ssa.Value(fn.Params[1]) {
+			valid = append(valid, call)
+		}
+	}
+	key := "SetBytes:only-the-validated-decode"
+	if len(valid) == 0 {
+		c.Bad("D12", key, fn.Pos(), "banderwagon.(*Element).SetBytes does not call p.setBytes(buf, false) on its own receiver and buffer: untrusted bytes are not validated")
+		return
+	}
+	var why []string
+	// returns
+	okValue := func(v ssa.Value) bool {
+		for _, call := range valid {
+			if v == errValue(call) {
+				return true
+			}
+		}
+		return false
+	}
+	passes := func(at ssa.Instruction) bool {
+		for _, call := range valid {
+			if ev := errValue(call); ev != nil {
+				if cuts := nilEdges(fn, ev, true); !cuts.Empty() && core.MustPass(fn, cuts, at) {
+					return true
+				}
+			}
+		}
+		return false
+	}
+	for _, r := range core.Returns(fn) {
+		if len(r.Results) != 1 {
+			continue
+		}
+		var check func(v ssa.Value, at ssa.Instruction, d int) bool
+		check = func(v ssa.Value, at ssa.Instruction, d int) bool {
+			switch {
+			case okValue(v):
+				return true
+			case core.IsNilConst(v):
+				return passes(at)
+			}
+			if phi, isPhi := v.(*ssa.Phi); isPhi && d < 4 {
+				for k, e := range phi.Edges {
+					pred := phi.Block().Preds[k]
+					term := pred.Instrs[len(pred.Instrs)-1]
+					if core.IsNilConst(e) {
+						// the edge itself may be the nil-error edge of the validating call
+						edgeOK := false
+						if ifi, isIf := term.(*ssa.If); isIf {
+							for _, call := range valid {
+								if ev := errValue(call); ev != nil {
+									for _, cd := range core.Conds(fn) {
+										if cd.Block == pred && cd.If == ifi && (cd.X == ev || cd.Y == ev) {
+											if idx := cd.EdgeWhere(token.EQL); idx >= 0 && pred.Succs[idx] == phi.Block() {
+												edgeOK = true
+											}
+										}
+									}
+								}
+							}
+						}
+						if !edgeOK && !passes(term) {
+							return false
+						}
+						continue
+					}
+					if !check(e, term, d+1) {
+						return false
+					}
+				}
+				return true
+			}
+			// any other value is an error made here: rejecting is always allowed
+			return !core.IsNilConst(v)
+		}
+		if !check(r.Results[0], r, 0) {
+			why = append(why, "the return at "+c.P.Pos(r.Pos())+" can report success without the validated decode having succeeded")
+		}
+	}
+	// writes of the receiver
+	st := c.wfxGet()
+	s := st.sums[fn]
+	if s == nil {
+		s = st.onDemand(fn)
+	}
+	if s == nil {
+		c.Und("D12", key, fn.Pos(), "no write summary")
+		return
+	}
+	for _, cz := range s.Causes["param:"+fn.Params[0].Name()] {
+		if cz.at == nil || cz.at.Parent() != fn {
+			continue
+		}
+		isValid := false
+		for _, call := range valid {
+			if cz.at == ssa.Instruction(call) {
+				isValid = true
+			}
+		}
+		if !isValid {
+			why = append(why, "the receiver is also written at "+c.P.Pos(cz.at.Pos())+", not by the validated decode")
+		}
+	}
+	c.Check(len(why) == 0, "D12", key, fn.Pos(), "banderwagon.(*Element).SetBytes: "+strings.Join(uniqStrings(why), "; "), fmt.Sprintf("%d validated decode call(s); all returns forward its error or lie behind its nil edge; no other write of the receiver", len(valid)))
 }
